@@ -19,8 +19,12 @@ def matrix_cases(rnd, reps):
         for ka, kb in (("lc", "lc"), ("lc", "int"), ("int", "lc"), ("bool", "bool"), ("bool", "lc"), ("lc", "bool"), ("bool", "int"), ("int", "bool")):
             for _ in range(reps):
                 n = rnd.choice([3, 4, 5, 8])
+                if rnd.random() < 0.15: n = rnd.choice([62, 100])          # wide configurations: values beyond 2^53 (no float can carry them)
                 edge = [0, 1, 2, 3, -1, -2, 5, 2 ** (n - 1) - 1, 2 ** (n - 1), 2 ** n - 1, 2 ** n, -(2 ** n) + 1, -(2 ** n), 2 ** n + 1]
+                if n > 60: edge += [2 ** 59 - 1, 2 ** 59 - 3, 3 * (2 ** 57) + 3, -(2 ** 58) - 2, 2 ** 60 - 6]
                 small = [0, 1, 2, 3, n - 1, n, n + 1, -1] if op in ("pow", "lshift", "rshift") else edge
+                if n > 60 and op in ("truediv", "floordiv", "mod", "divmod"): small = [1, 2, 3, -1, -2, 6, 5]
+                if n > 60 and op in ("pow", "lshift"): n = 8; edge = [0, 1, 2, 3, -1, 5]; small = [0, 1, 2, 3, 7, 8, 9]
                 prog = []; nreg = [0]
                 def new():
                     nreg[0] += 1
@@ -124,7 +128,7 @@ def oracle(case, rec, group):
 
 def run(tier, seed):
     import random
-    pending = matrix_cases(random.Random(seed * 7919 + 5), 2 if tier == "quick" else 15)
+    pending = matrix_cases(random.Random(seed * 7919 + 5), 6 if tier == "quick" else 30)
     gen = [None]
     def casegen(rnd):
         if pending: return pending.pop()
